@@ -203,7 +203,7 @@ class OpaqueV:
 
 SORT_OF_TAG = {"attkey": T.I, "attval": T.I, "optint": T.OptInt, "line": T.I, "optline": T.I, "int": T.I, "bool": T.B, "str": T.SI, "bytes": T.SI, "chunk": T.ChunkS, "atts": T.Atts,
                "fmtstr": T.FmtS, "item": T.ItemS, "cell": T.Cell}
-SEQ_OF_TAG = {"char": T.SI, "int": T.SI, "chunk": T.SCh, "fmtstr": T.SF, "item": T.SItem, "cell": T.SC}
+SEQ_OF_TAG = {"byte1": T.SI, "char": T.SI, "int": T.SI, "chunk": T.SCh, "fmtstr": T.SF, "item": T.SItem, "cell": T.SC}
 
 
 def is_int(v):
